@@ -80,6 +80,12 @@ class ELBO(CallableModel):
                 lp = (self.p() - self.q()).mean()
         return lp
 
+    def __call__(self, *args, **kwargs) -> torch.Tensor:
+        # stochastic objective: every evaluation request draws new samples
+        self.lp = self._call(*args, **kwargs)
+        self.lp_needs_update = False
+        return self.lp
+
     def handle_parameter_changed(self, variable, index, event):
         pass
 
@@ -141,6 +147,12 @@ class KLpq(CallableModel):
         log_w_norm = log_w - torch.logsumexp(log_w, -1, keepdim=True)
         return torch.sum(log_w_norm.exp() * log_w, -1).mean()
 
+    def __call__(self, *args, **kwargs) -> torch.Tensor:
+        # stochastic objective: every evaluation request draws new samples
+        self.lp = self._call(*args, **kwargs)
+        self.lp_needs_update = False
+        return self.lp
+
     def handle_parameter_changed(self, variable, index, event):
         pass
 
@@ -196,6 +208,12 @@ class KLpqImportance(CallableModel):
         return -torch.sum(w_norm * log_q)
         # log_w_norm = log_w - torch.logsumexp(log_w, -1)
         # return torch.sum(log_w_norm.exp() * log_q)
+
+    def __call__(self, *args, **kwargs) -> torch.Tensor:
+        # stochastic objective: every evaluation request draws new samples
+        self.lp = self._call(*args, **kwargs)
+        self.lp_needs_update = False
+        return self.lp
 
     def handle_parameter_changed(self, variable, index, event):
         pass
@@ -291,6 +309,12 @@ class SELBO(CallableModel):
                     log_probs.append((self.p() - q().sum(-1)).mean().unsqueeze(0))
             lp = (self.weights.tensor * torch.cat(log_probs)).sum()
         return lp
+
+    def __call__(self, *args, **kwargs) -> torch.Tensor:
+        # stochastic objective: every evaluation request draws new samples
+        self.lp = self._call(*args, **kwargs)
+        self.lp_needs_update = False
+        return self.lp
 
     def handle_parameter_changed(self, variable, index, event):
         pass
